@@ -30,6 +30,7 @@ type Profile struct {
 	EpilogueET int  // fault-free suffix length in election timeouts
 	Prologue   bool // wait for a first leader before the schedule starts
 	BoundedNet bool // never hold messages (C17: delay bound is part of the property)
+	Combos     [][3]int // if set: (ET ms, LD ms, max delay us) drawn together
 }
 
 // step is a lazily resolved action: it sees the current view when it is its turn.
@@ -100,6 +101,11 @@ func DrawHeader(t *rapid.T, p Profile) Header {
 		h.Padding = rapid.SampledFrom(pads).Draw(t, "padding")
 	}
 	h.DiskCheck = p.DiskCheck
+	if len(p.Combos) > 0 {
+		c := rapid.SampledFrom(p.Combos).Draw(t, "combo")
+		h.ET, h.LD, h.MaxDelayUs = c[0], c[1], c[2]
+		h.HB = h.ET / 6
+	}
 	return h
 }
 
@@ -532,6 +538,37 @@ func (g *Gen) expand(pat string, v View) {
 		}
 		st = append(st, advance(g.dur("up", et, 3*et)))
 		g.push("P11", st...)
+	case "P13": // reads at a freshly elected leader whose commit index is behind (whole-cluster restart or lagging follower)
+		var st []step
+		st = append(st, submitAt("leader", "write"), advance(g.dur("d0", 2000, hb)), submitAt("leader", "write"), advance(g.dur("d1", 2000, hb, 2*hb)))
+		if g.P.Crashes && rapid.Bool().Draw(t, "fullRestart") {
+			for _, id := range g.running(v) {
+				st = append(st, lit(Action{Op: "crash", Node: id}))
+			}
+			st = append(st, advance(g.dur("down", 1000, et)))
+			for _, id := range rapid.Permutation(g.C.Order).Draw(t, "perm") {
+				st = append(st, lit(Action{Op: "restart", Node: id}))
+			}
+		} else if leader != "" {
+			st = append(st, lit(Action{Op: "isolate", Node: leader, Mode: "drop"}))
+		}
+		n := rapid.IntRange(8, 30).Draw(t, "polls")
+		gap := g.dur("poll", 5000, 25000, hb)
+		for i := 0; i < n; i++ {
+			st = append(st, advance(gap), func(g *Gen, v View) (Action, bool) {
+				ids := g.inState(v, "leader")
+				if len(ids) == 0 {
+					return Action{Op: "advance", DurUs: 1000}, true
+				}
+				kinds := g.readKinds()
+				if len(kinds) == 0 {
+					kinds = []string{"write"}
+				}
+				return Action{Op: "submit", Node: g.pick("l", ids), Kind: rapid.SampledFrom(kinds).Draw(g.T, "rk"), Client: g.nextClient(), Timeout: 1000}, true
+			})
+		}
+		st = append(st, lit(Action{Op: "heal", Mode: "drop"}), advance(g.dur("d2", hb, et)))
+		g.push("P13", st...)
 	case "P12": // figure 8: alternate partial replication between two nodes
 		rounds := rapid.IntRange(2, 3).Draw(t, "rounds")
 		for r := 0; r < rounds; r++ {
